@@ -99,6 +99,9 @@ def run_check(mod, ctx):
         rc, mlog = build.make(targets)
         props = [build.check_props(f) for f in mod.PROPS]
         exe, jlog = build.build_jpx()
+    chk = None
+    if ctx.tier == "thorough" and all(p["ok"] for p in props):
+        chk = [build.coqchk(f) for f in mod.PROPS]
     aud = build.audit()
     theorems = [t for p in props for t in p["theorems"]]
     allowed_axioms = getattr(mod, "ALLOWED_AXIOMS", [])
@@ -121,11 +124,17 @@ def run_check(mod, ctx):
         broken.append("audit: " + "; ".join(aud[:5]))
     if not exe:
         broken.append("executable model does not build (Extract/Extract.v or its dependencies)")
+    if chk is not None:
+        n_ob += len(chk)
+        for (ok, summary), f in zip(chk, mod.PROPS):
+            if ok: n_ok += 1
+            else: broken.append("coqchk %s: %s" % (f, summary[:300]))
     cov.update({"obligations": n_ob, "discharged": n_ok,
                 "checker_cmd": "coq_makefile -f _CoqProject && make %s (coqc 8.16.1, full .vo); coqc -Q . JP %s (Print Assumptions)" % (" ".join(targets), " ".join(mod.PROPS)),
                 "trusted_base": mod.TRUSTED_BASE,
                 "theorems": [{k: t[k] for k in ("name", "assumptions", "discharged")} for t in theorems],
-                "gen_files": gen_used, "audit": aud})
+                "gen_files": gen_used, "audit": aud,
+                "coqchk": [c[1] for c in chk] if chk is not None else "thorough tier only"})
     # 3-4: correspondence and oracle
     stats = {"evaluations": 0, "distinct_nontrivial": 0, "model_impl_disagreements": 0, "impl_spec_disagreements": 0,
              "kinds": {}, "samples": []}
